@@ -100,11 +100,14 @@ static bool check_value(int k, uint64_t raw) {
 }
 
 // ---- one octet string through both decoders
-static bool check_string(int k, const uint8_t *s, size_t n, size_t prefix) {
+// prefixarg: low octet = number of junk octets in front of the string (offset), bit 8 = the buffer is presented the way byte_buffer_space()
+// users do it: fill mark 0, so that with an offset the fill mark lies below the read position (the suite decodes from such buffers)
+static bool check_string(int k, const uint8_t *s, size_t n, size_t prefixarg) {
+    size_t prefix = prefixarg & 0xff; bool space_style = prefixarg & 0x100;
     size_t M = maxoct(k);
-    g_cur.mode = 1; g_cur.k = k; g_cur.s = s; g_cur.n = n; g_cur.prefix = prefix;
+    g_cur.mode = 1; g_cur.k = k; g_cur.s = s; g_cur.n = n; g_cur.prefix = prefixarg;
     ref::VarintResult r = ref::varint_decode(s, n, M, bits(k));
-    auto F = [&](const char *key, const std::string &msg) { vp::fail(std::string("decode:") + key, msg + " " + kname[k], ser_dec(k, s, n, prefix)); return false; };
+    auto F = [&](const char *key, const std::string &msg) { vp::fail(std::string("decode:") + key, msg + " " + kname[k], ser_dec(k, s, n, prefixarg)); return false; };
     bool ok = true;
     // exact-size block = prefix junk + string; buffer ends with the string (used == size)
     size_t total = prefix + n;
@@ -115,7 +118,7 @@ static bool check_string(int k, const uint8_t *s, size_t n, size_t prefix) {
     for (size_t i = 0; i < prefix; i++) mem[i] = 0x80;
     if (n) memcpy(mem + prefix, s, n);
     ByteBuffer b;
-    b.data = mem; b.size = total; b.used = total; b.offset = prefix;
+    b.data = mem; b.size = total; b.used = space_style ? 0 : total; b.offset = prefix;
     uint64_t vb = 0, vs = 0;
     int rb = (total == 0) ? -1 : dec_buf(k, &b, &vb);
     OctSrc os{s, n, 0}; Source src; octet_source_init(&src, octsrc_cb, &os);
@@ -159,7 +162,7 @@ static void strings_upto(size_t minlen, size_t maxlen) {
             for (int k = 0; k < 4; k++) {
                 // the first maxoct octets decide everything; skip strings that only differ behind max+1 (counted once)
                 vp::count();
-                check_string(k, s, len, (code % 3 == 0) ? 1 : 0);
+                { static const size_t PFX[6] = {1, 0x100, 0, 0x101, 0, 0x102}; check_string(k, s, len, PFX[code % 6]); }
             }
             bool nontrivial = !term || firstterm >= 5 || (firstterm > 0 && s[firstterm] == 0x00);   // truncated / over-long / non-canonical
             if (nontrivial) vp::nontrivial(vp::mix(code, len));
@@ -188,7 +191,7 @@ static void run() {
         size_t maxlen = a.thorough() ? 9 : 8;
         vp::stats().rule = vp::fmt("enum: boundary values (7-bit group edges +-1, single bits, sign edges) and all values with <=2 non-zero bytes + random values through all four "
                                    "encoders/decoders; all octet strings of length <= %zu over {00,01,7f,80,81,ff} through buffer and source decoders of all four kinds, "
-                                   "each in an exact-size heap block ending at the string's last octet", maxlen);
+                                   "each in an exact-size heap block ending at the string's last octet, presented as a filled buffer (used == size) and the way byte_buffer_space() users do (fill mark 0, below the read offset)", maxlen);
         vp::stats().exhaustive = true;
         if (a.shard == 0) {
             for (uint64_t v : boundary_values()) for (int k = 0; k < 4; k++) { vp::count(); check_value(k, v); if (ref::varint_encode(k < 2 ? (v & 0xffffffffull) : v).size() >= 2) vp::nontrivial(vp::mix(v, k + 100)); }
@@ -218,7 +221,7 @@ static void run() {
         for (size_t i = 0; i < nrand / a.nshards / 4; i++) {
             uint8_t s[16]; size_t len = (size_t)rng.range(1, 12);
             for (size_t j = 0; j < len; j++) s[j] = rng.chance(1, 3) ? (rng.byte() | 0x80) : rng.byte();
-            for (int k = 0; k < 4; k++) { vp::count(); check_string(k, s, len, rng.below(3)); }
+            for (int k = 0; k < 4; k++) { vp::count(); check_string(k, s, len, rng.below(3) | (rng.below(3) == 0 ? 0x100 : 0)); }
             vp::cls("random-strings");
         }
     } else {
